@@ -23,7 +23,8 @@ def to_term(case, ob):
     cls = [(int(n), (pv.desc_term(d), pv.val_term(dfl[n]))) for n, d in case["traits"]]
     h = []
     for (how, kws), st in zip(case["ops"], ob["steps"]):
-        op = (C(how), [(int(n), pv.val_term(v)) for n, v in kws])
+        # the quiet routes (notifications off) must behave exactly like trait_set: same model operation
+        op = (C("TraitSet" if how in ("TraitSetQ", "TraitSetq") else how), [(int(n), pv.val_term(v)) for n, v in kws])
         out = C("Ok") if st["out"] == "Ok" else C("Raise", C(st["out"]))
         h.append((op, C("mkObs", out, bool(st["names"]), [(int(n), pv.val_term(w)) for n, w in st["after"]])))
     return (env, cls, h)
@@ -103,6 +104,33 @@ def corpus():
     one(["DPrefixMap", [[pv.W("yes"), ["PInt", 1]], [pv.W("no"), ["PInt", 0]], [pv.W("yesterday"), ["PInt", 2]]]],
         S("ye"), S("n"), S("yest"), ["PStrSub", pv.W("no")], ["PInt", 1])
     one(["DCompound", [["DMap", [[S("a"), ["PInt", 1]]]], ["DInt"]]], S("a"), ["PInt", 5], S("b"))
+    # the quiet routes x mapped traits: the shadow must follow the value (post_setattr runs with notifications off)
+    m1 = ["DMap", [[S("a"), ["PInt", 1]], [["PInt", 1], ["PInt", 2]], [S("b"), S("abc")]]]
+    pm = ["DPrefixMap", [[pv.W("yes"), ["PInt", 1]], [pv.W("no"), ["PInt", 0]], [pv.W("yesterday"), ["PInt", 2]]]]
+    for q in ("TraitSetQ", "TraitSetq"):
+        cs.append(dict(traits=[[0, m1], [1, ["DInt"]]],
+                       ops=[["Attr", [[0, S("a")]]], [q, [[0, ["PInt", 1]]]], [q, [[0, S("b")]]], ["Attr", [[0, S("a")]]],
+                            [q, [[0, S("zz")]]], [q, [[0, S("b")], [1, ["PInt", 3]]]]]))
+        cs.append(dict(traits=[[0, pm], [1, ["DInt"]]],
+                       ops=[[q, [[0, S("no")]]], [q, [[0, S("yest")]]], ["Attr", [[0, S("n")]]], [q, [[0, S("yes")]]]]))
+        cs.append(dict(traits=[[0, m1], [2, pm]], ops=[[q, [[0, S("b")], [2, S("no")]]], [q, [[2, S("ye")]]], [q, [[0, ["PInt", 1]]]]]))
+    # ValidatedTuple (no / always-true fvalidate): stores the converted members
+    for fv in ("none", "true"):
+        vt = ["DTuple", [["DFloat"], ["DInt"], ["DCast", "CTStr"]], "Validated", fv]
+        one(vt, ["PTuple", [["PInt", 1], ["PInt", 2], ["PInt", 5]]], ["PTuple", [["PFloat", F(0.5)], ["PBool", True], S("a")]],
+            ["PTuple", [["PInt", 1], ["PInt", 2]]], ["PInt", 1], ["PTuple", [["PNpInt", 15, 1], ["PIntSub", 3], ["PNone"]]],
+            ["PTuple", [S("a"), ["PInt", 2], ["PInt", 5]]], ["PNone"])
+        one(["DTuple", [["DFloat"], ["DFloat"]], "Validated", fv], ["PTuple", [["PInt", 1], ["PInt", 2]]], how="Ctor")
+    # membership tests against a value whose == has no truth value (numpy array of size > 1) / that is unhashable:
+    # the rejection must be a TraitError naming the attribute, not numpy's ValueError
+    arr = [["PArray", 32, [3], 0], ["PArray", 30, [2, 3], 1], ["PArray", 36, [2], 0]]
+    one(["DEnum", [["PInt", 1], ["PInt", 2], S("a")]], *arr, ["PInt", 2])
+    one(["DEnum", [["PFloat", F(0.5)], ["PNone"]], "args"], *arr, how="TraitSet")
+    one(["DMap", [[S("a"), ["PInt", 1]], [["PInt", 1], ["PInt", 2]]]], *arr)
+    one(["DPrefixList", [pv.W("yes"), pv.W("no")]], *arr)
+    one(["DCompound", [["DEnum", [["PInt", 1], S("a")]], ["DStr"]]], *arr)
+    one(["DTuple", [["DEnum", [["PInt", 1], S("a")]], ["DInt"]]], ["PTuple", [arr[0], ["PInt", 1]]], ["PTuple", [["PInt", 1], ["PInt", 1]]])
+    one(["DUnion", [["DEnum", [["PInt", 1], S("a")]], ["DInt"]]], *arr, how="Ctor")
     for how in ("Attr", "TraitSet", "Ctor"):                                           # F22
         one(["DInt"], ["PInt", 3], ["PUndefined"], ["PInt", 4], how=how)
     one(["DRangeF", F(0.0), F(1.0), 0], ["PUndefined"])
@@ -165,7 +193,7 @@ def gen_cases(ctx, rnd):
             descs = dict(traits)
             ops = [["Attr", [[1, ["PInt", 7]]]]] if rnd.random() < 0.7 else []
             for _ in range(rnd.randint(1, maxlen)):
-                how = rnd.choice(["Attr", "Attr", "Attr", "TraitSet", "Ctor"])
+                how = rnd.choice(["Attr", "Attr", "Attr", "TraitSet", "Ctor", "TraitSetQ", "TraitSetq"])
                 names = [0] if how == "Attr" or rnd.random() < 0.6 else rnd.sample([n for n, _ in traits], min(2, len(traits)))
                 kws = []
                 for n in names:
@@ -213,7 +241,15 @@ def run(ctx):
         ctx.fail("harness/env", "class table could not be computed: " + err[-400:], dict(error=err[-2000:]), no_input=True)
     else:
         header = pv.header_with_sub(IMPORTS, envd["sub"])
-        single.run(ctx, "c01_driver.py", cases, to_term, header, CASE_T, key_fn, describe, nontrivial, RELATION,
+        obs = single.run(ctx, "c01_driver.py", cases, to_term, header, CASE_T, key_fn, describe, nontrivial, RELATION,
                    check_obs=check_obs, sanitize=(ctx.tier == "thorough"), shard=250)
+    for c, o in zip(cases, obs or []):          # an assignment that changes the assigned value itself
+        for i, st in enumerate(o["steps"]):
+            if st.get("mut"):
+                how, d, v = _first(c, i)
+                ctx.fail("input-mutated/%s/%s/%s" % (how, pv.shape(d), pv.vshape(v)),
+                         "step %d (%s): the assigned value %s was MUTATED by the assignment to %s" % (
+                             i, how, json.dumps(v)[:120], pv.shape(d)),
+                         dict(kind="law-failure-on-implementation", clause="input-mutated", step=i, case=c, impl_obs=o))
     t2.gate(ctx, "C01")
     proof_gate(ctx, ok, log, PROPS)
